@@ -25,7 +25,7 @@ origin={
  'F6':'added after seed C04-r4a','F7':'added after seed C04-r4b','A6':'added after seed C08-r4a','A7':'added after seed C01-r4a','A8':'added after seed C12-r4b (general rule; found the time.now defect)','E8':'added after seed C11-r4b','W9':'added after seed C03-r4b','B7':'added after seed C19-r4b','I9':'added after seed C19-r4a (found the duration // duration defect)','O11':'added after seed C01-r4b','O12':'added after seed C09-r4a','N9':'added after seed C02-r4a','N10':'added after seed C02-r4b','I2':'planned (section 3, C10); built after seed C02-r5a','J5':'added after seeds C18-r2a/C18-r5a (found the DEL quoting defect)','V11':'added after seed C01-r5a','V12':'added after seed C01-r5b','O13':'added after seed C02-r5b','F8':'added after seed C04-r5a','A9':'added after seed C08-r5b','O14':'added after seed C09-r5b','E9':'added after seed C11-r5a','H8':'added after seed C12-r5a',
  'D1':'planned; comparator clause added after seed C03-r5b','D4':'planned; package initialisers, sync.Pool and maphash added after seeds C17-r4a/C11-r5b','I6':'planned as a sign/width abstract interpretation; built late as a taint rule with enumerated safe idioms (4.4); strconv sources and sign-changing conversions added after seed C10-r5a',
  'S7':'added after seeds C07-r5a/C07-r5b','R7':'added after seed C20-r5b','Q6':'added after seed C15-r5a','Z6':'added after seed C17-r4b','Q7':'added after seed C15-r4b (first rule on the abstract executor)','A10':'added after seed C08-r3b, once the abstract executor existed','Q8':'added after seed C15-r2a, once the abstract executor existed','I10':'added with the abstract executor (boundary of MakeInt64/MakeUint64)','J6':'added after the property text and sub-agents named the defect (found finding #21)','I11':'added after seed C10-r6b','I12':'added after seed C12-r6b','F9':'added after seed C04-r6a','O16':'added after seed C09-r6b','R8':'added after seed C20-r6b','S8':'added after seeds C07-r6a/C07-r6b','O15':'added after seed C01-r6b',
- 'X1':'added after seed C06-r6a','T7':'added after seeds C14-r5a/C16-r6b','T8':'added after seeds C15-r6a/C15-r6b','Z7':'added after seed C17-r6b','Z8':'added after seed C17-r6a','N11':'added after seed C02-r7b','W10':'added after seed C08-r7b','Z9':'added after seeds C17-r7a/C15-r7a','V13':'added after seed C01-r7a','F10':'added after seed C04-r7a','O17':'added after seed C09-r7a','O18':'added after seed C09-r7b','I13':'added after seed C10-r7b','H9':'added after seed C11-r7a','J7':'added after seed C18-r7a','W11':'added after seed C11-r8b','W12':'added after seed C03-r8b','S9':'added after seed C08-r8a','V14':'added after seed C01-r8a','N12':'added after seed C02-r8a (first rule on valueSetAt)','M4':'added after seed C06-r8a','O19':'added after seed C09-r8a','H10':'added after seed C12-r8a','A11':'added after seed C08-r8b','E10':'added after seed C11-r8a','J8':'added after seed C18-r8b','R9':'added after seed C20-r8a','J9':'added after seed C18-r8a','N13':'added with valueSetAt (negative sizes, counts, shift distances)','N14':'added after seed C02-r9b','F11':'added after seed C05-r9a','M5':'added after seed C06-r9b','P3':'added after seed C06-r9a','S10':'added after seeds C07-r9b/C02-r9a','A12':'added after seed C08-r9a','I15':'added after seed C10-r9a','I16':'added after seed C10-r9b','E11':'added after seed C11-r9a','E12':'added after seed C11-r9b','T9':'added after seed C14-r9b','L8':'added after seed C16-r9b','B8':'added after seed C19-r9b','N15':'added after seed C20-r9a','N16':'added after re-reading seed C18-a','I17':'added after re-reading seed C10-r2b','E13':'added after re-reading seed C11-r3a (also catches C12-r8b)','H11':'added after re-reading seed C12-r2a','J10':'added after re-reading seed C18-r2b','Q9':'added after re-reading seed C15-r2b','D6':'added after seed C03-r10b','E14':'added after seed C19-r10a','V15':'added after seed C12-r10a','I18':'added after seeds C18-r10a/C19-r10b (found finding #24)','X2':'added after seed C14-r10a (also catches C15-r7b)','A13':'added after seed C08-r10b','L9':'added after seed C16-r10b','N17':'added after seed C02-r11b','L10':'added after seed C16-r11a','Z10':'added after seed C17-r11a','D7':'added after seed C01-r11b','S11':'added after seed C07-r11b','A14':'added after seed C02-r12a','N18':'added after seed C02-r12b','E15':'added after seed C01-r12a','G1':'added after seed C09-r12a','G2':'added after seed C01-r12b','P4':'added after seed C20-r12b','J11':'added after seed C18-r12b','M6':'added after seed C06-r12b','L11':'added after seed C16-r12a','Z11':'added after seed C17-r12b','E16':'added after seed C11-r12a','M7':'added after seed C02-r13b','E17':'added after seed C11-r13a','O20':'added after seed C09-r13b','E18':'added after seed C15-r13a','Q10':'added after seed C18-r13a','J12':'added after seed C18-r13b','D8':'added after seed C03-r13a','T11':'added after seed C14-r13a','O22':'added after seed C09-r14b','E19':'added after seed C11-r14b','L12':'added after seed C16-r14a','L13':'added after seed C16-r14b','N20':'added after seed C09-r14a','I19':'added after seed C10-r14b','O21':'added for finding #25 (reported by the C09 seeding agent of round 14)','I14':'added after seed C20-r7b (found finding #23)',
+ 'X1':'added after seed C06-r6a','T7':'added after seeds C14-r5a/C16-r6b','T8':'added after seeds C15-r6a/C15-r6b','Z7':'added after seed C17-r6b','Z8':'added after seed C17-r6a','N11':'added after seed C02-r7b','W10':'added after seed C08-r7b','Z9':'added after seeds C17-r7a/C15-r7a','V13':'added after seed C01-r7a','F10':'added after seed C04-r7a','O17':'added after seed C09-r7a','O18':'added after seed C09-r7b','I13':'added after seed C10-r7b','H9':'added after seed C11-r7a','J7':'added after seed C18-r7a','W11':'added after seed C11-r8b','W12':'added after seed C03-r8b','S9':'added after seed C08-r8a','V14':'added after seed C01-r8a','N12':'added after seed C02-r8a (first rule on valueSetAt)','M4':'added after seed C06-r8a','O19':'added after seed C09-r8a','H10':'added after seed C12-r8a','A11':'added after seed C08-r8b','E10':'added after seed C11-r8a','J8':'added after seed C18-r8b','R9':'added after seed C20-r8a','J9':'added after seed C18-r8a','N13':'added with valueSetAt (negative sizes, counts, shift distances)','N14':'added after seed C02-r9b','F11':'added after seed C05-r9a','M5':'added after seed C06-r9b','P3':'added after seed C06-r9a','S10':'added after seeds C07-r9b/C02-r9a','A12':'added after seed C08-r9a','I15':'added after seed C10-r9a','I16':'added after seed C10-r9b','E11':'added after seed C11-r9a','E12':'added after seed C11-r9b','T9':'added after seed C14-r9b','L8':'added after seed C16-r9b','B8':'added after seed C19-r9b','N15':'added after seed C20-r9a','N16':'added after re-reading seed C18-a','I17':'added after re-reading seed C10-r2b','E13':'added after re-reading seed C11-r3a (also catches C12-r8b)','H11':'added after re-reading seed C12-r2a','J10':'added after re-reading seed C18-r2b','Q9':'added after re-reading seed C15-r2b','D6':'added after seed C03-r10b','E14':'added after seed C19-r10a','V15':'added after seed C12-r10a','I18':'added after seeds C18-r10a/C19-r10b (found finding #24)','X2':'added after seed C14-r10a (also catches C15-r7b)','A13':'added after seed C08-r10b','L9':'added after seed C16-r10b','N17':'added after seed C02-r11b','L10':'added after seed C16-r11a','Z10':'added after seed C17-r11a','D7':'added after seed C01-r11b','S11':'added after seed C07-r11b','A14':'added after seed C02-r12a','N18':'added after seed C02-r12b','E15':'added after seed C01-r12a','G1':'added after seed C09-r12a','G2':'added after seed C01-r12b','P4':'added after seed C20-r12b','J11':'added after seed C18-r12b','M6':'added after seed C06-r12b','L11':'added after seed C16-r12a','Z11':'added after seed C17-r12b','E16':'added after seed C11-r12a','M7':'added after seed C02-r13b','E17':'added after seed C11-r13a','O20':'added after seed C09-r13b','E18':'added after seed C15-r13a','Q10':'added after seed C18-r13a','J12':'added after seed C18-r13b','D8':'added after seed C03-r13a','T11':'added after seed C14-r13a','O22':'added after seed C09-r14b','E19':'added after seed C11-r14b','L12':'added after seed C16-r14a','L13':'added after seed C16-r14b','N20':'added after seed C09-r14a','I19':'added after seed C10-r14b','M8':'added after seed C12-r14b','O21':'added for finding #25 (reported by the C09 seeding agent of round 14)','I14':'added after seed C20-r7b (found finding #23)',
  'H3':'planned; key-provenance clause added after seed C12-r3a','B2':'planned; made transitive after seed C19-r3b','P1':'planned; the double-release clause was added after seed C06-r3a',
 }
 out=subprocess.check_output([V+'/bin/verifsa','rules'],text=True)
